@@ -3,14 +3,14 @@ CONSTANTS
   Owner = {"A", "B", "C"}
   Prio = {5, 7, 8, 10, 12}
   PrioOf <- GenPrioOf
-  Leaf <- GenChoiceLeaf
-  MaxUpd = 3
+  Leaf <- GenLifeLeaf
+  MaxUpd = 2
   MaxIntents = 2
   TxnId = {"t1", "t2"}
   WithFaults = FALSE
-  FailKinds = {"none"}
-  TmoKinds = {"short"}
+  FailKinds = {"none", "device"}
+  TmoKinds = {"short", "long"}
   WithLifecycle = TRUE
-  InitDevice <- GenChoiceInit
+  InitDevice <- GenLifeInit
 INVARIANT Emit
 CHECK_DEADLOCK FALSE
